@@ -189,7 +189,7 @@ def rule_R17_method_stubs(text, mask, ctx):
     if not table:
         return eds
     names = '|'.join(sorted(table.keys(), key=len, reverse=True))
-    for m in re.finditer(r'\.(' + names + r')\(', mask):
+    for m in re.finditer(r'\.(' + names + r')(?:::<[\w\s,:&]*>)?\(', mask):   # (an explicit type argument is dropped: the stub fixes it)
         close = _balanced_call(mask, m.end() - 1)
         args = text[m.end():close].strip()
         r0 = _recv_start(mask, m.start())
